@@ -1425,6 +1425,46 @@ pub fn run_c17(case: &C17Case, cut: usize, o: &mut Outcome) -> Option<Failure> {
             }
         }
     }
+    // the resumption is over: a publish issued now is ordinary traffic of this connection, also
+    // when run() is dropped at a quiet moment and called again (nothing is "resumed" a second time)
+    if w.run_result.is_none() && w.ctx_running() {
+        w.tick();
+        let op = w.start_op(0, OpSpec::Publish(PublishSpec { qos: Some(1), topic: Some("c17/after".into()), payload: Some(b"after".to_vec()), ..Default::default() }))?;
+        settle(&mut w, &plan, false);
+        if w.ops[op].res.is_some() {
+            return None; // refused for quota under a small Receive Maximum: nothing to see
+        }
+        w.sync_wire();
+        let n = w.pkts.len();
+        let pid = w.pkts[..n].iter().rev().find_map(|p| match &p.decoded {
+            Ok(rc::Packet::Publish(x)) if x.topic == "c17/after" => x.pid,
+            _ => None,
+        })?;
+        if !w.cancel_run() || !w.start_run() {
+            return None;
+        }
+        settle(&mut w, &plan, false);
+        if let Some(p) = first_panic(&w) {
+            return Some(Failure { sig: format!("PANIC/{}", panic_sig(&p)), msg: p });
+        }
+        w.sync_wire();
+        if w.pkts.len() != n {
+            let names: Vec<String> = w.pkts[n..].iter().map(|p| match &p.decoded { Ok(x) => format!("{}:{:?}", x.name(), x.pid()), Err(e) => e.0.clone() }).collect();
+            return Some(Failure {
+                sig: "C17/resent-again-on-run-re-entry".into(),
+                msg: format!("after the resumption a new QoS 1 publish (pid {pid}) was in flight; run() was dropped at a quiet moment and called again: the client wrote {names:?} (nothing was due)"),
+            });
+        }
+        w.reader.feed(rc::encode(&rc::Packet::Puback(rc::Ack { pid, ..Default::default() }), &rc::Form::short()));
+        settle(&mut w, &plan, false);
+        if w.ops[op].res != Some(OpRes::Ok) {
+            return Some(Failure {
+                sig: "C17/new-request-lost".into(),
+                msg: format!("a publish issued after the resumption, with run() re-entered while it was in flight: result {:?} after its PUBACK", w.ops[op].res),
+            });
+        }
+        o.class("run-re-entered-after-the-resumption");
+    }
     None
 }
 
